@@ -14,7 +14,7 @@ EXPLANATION = ("cpmc.ratio/update: for EVERY ordered pair of spin-orbitals (same
                "field values (no constraint active). Shape-bounded => level 'other'.")
 LEVEL_TEXT = EXPLANATION
 LEVEL_NOTE = ("N/D: the 2^n-configuration sum is the composition (telescoping product of the per-site contracts with the one-body halves) stated in DESIGN.md, not re-derived by the machine; "
-              "K = lattice kinetic matrix clause (exp_h1 argument) and the nearest-neighbour fast-vs-slow comparison over seeds are not decided. Constraint tests (<1e-8, >100) are assumed inactive.")
+              "the nearest-neighbour fast-vs-slow comparison over seeds are not decided. Constraint tests (<1e-8, >100) are assumed inactive.")
 TRUSTED_BASE = TRUSTED + ["sympy simplification of exp/acosh expressions (HS constants)"]
 ASSUMPTIONS = ["no constraint active (ratios >= 1e-8, weights <= 100) - path condition of the site contracts", "real-valued walkers and trials for CPMC"]
 
@@ -31,7 +31,7 @@ def tasks(tier):
         t.append((C, "woodbury", dict(kind="uhf_cpmc", norb=3, nu=1, nd=1)))
         t.append((C, "update", dict(kind="uhf_cpmc", norb=4)))
         t.append((C, "site_body", dict(kind="uhf_cpmc", fast=True, norb=3)))
-    t += [(C, "hs_constants", {}), (C, "canary", {})]
+    t += [(C, "hs_constants", {}), (C, "canary", {}), (C, "kinetic", dict(cls_name="propagator_cpmc")), (C, "kinetic", dict(cls_name="propagator_cpmc_slow"))]
     for fast in (True, False):
         for kind in ("uhf_cpmc", "ghf_cpmc"):
             t.append((C, "site_body", dict(kind=kind, fast=fast)))
